@@ -62,14 +62,21 @@ class Lexer:
 
             # Multi-line comment
             if ch == "/" and self._peek() == "*":
+                comment_line, comment_column = self.line, self.column
                 self._advance()  # /
                 self._advance()  # *
+                terminated = False
                 while self.pos < self.length:
                     if self._current() == "*" and self._peek() == "/":
                         self._advance()  # *
                         self._advance()  # /
+                        terminated = True
                         break
                     self._advance()
+                if not terminated:
+                    raise JSSyntaxError(
+                        "Unterminated comment", comment_line, comment_column
+                    )
                 continue
 
             break
@@ -417,6 +424,7 @@ class Lexer:
         # Read pattern
         pattern = []
         in_char_class = False
+        terminated = False
 
         while self.pos < self.length:
             ch = self._current()
@@ -434,11 +442,15 @@ class Lexer:
             elif ch == "/" and not in_char_class:
                 # End of pattern
                 self._advance()
+                terminated = True
                 break
             elif ch == "\n":
                 raise JSSyntaxError("Unterminated regex literal", line, column)
             else:
                 pattern.append(self._advance())
+
+        if not terminated:
+            raise JSSyntaxError("Unterminated regex literal", line, column)
 
         # Read flags
         flags = []
